@@ -131,6 +131,7 @@ func TestC11(t *testing.T) {
 	cfg.PApi = 5
 	cfg.PRemoveNow = 12 // Remove of a watched directory between the two halves of a move
 	cfg.PLongPause = 5  // a consumer that stays away for more than a second
+	cfg.PDot = 6        // moves inside the working directory watched as "." (names "./x")
 	cfg.PRecv = 25      // the reader advances a few events into the burst and parks again (often on a Rename)
 	cfg.W = map[string]int{
 		engine.KCreate: 12, engine.KRename: 45, engine.KLink: 6, engine.KUnlink: 6, engine.KWrite: 3, engine.KMkdir: 3, engine.KSymlink: 2,
